@@ -43,8 +43,8 @@ def dump_cases(draw):
     w = st.one_of(st.floats(0.05, 20.0, allow_nan=False), st.just(None))
     weights = draw(st.lists(w, min_size=n, max_size=n)) if has_weight else None
 
-    def region():
-        ci = draw(st.integers(0, len(bt["names"]) - 1))
+    def region(same_as=None):
+        ci = draw(st.integers(0, len(bt["names"]) - 1)) if same_as is None else bt["names"].index(same_as)
         L = bt["edges"][ci][-1]
         kind = draw(st.sampled_from(["bare", "range", "range", "open"]))
         if kind == "bare":
@@ -57,7 +57,8 @@ def dump_cases(draw):
 
     use_range = draw(st.booleans())
     r1 = region() if use_range else None
-    r2 = region() if use_range and draw(st.booleans()) else None
+    # the column range is often a part of the same chromosome, so that the box straddles the diagonal
+    r2 = (region(r1[0] if draw(st.booleans()) else None) if use_range and draw(st.booleans()) else None)
     return {"part": "dump", "bt": bt, "symmetric": symmetric, "rows": rows, "weights": weights,
             "range": r1, "range2": r2, "fill_lower": draw(st.booleans()), "join": draw(st.booleans()),
             "balanced": has_weight and draw(st.booleans()), "annotate": draw(st.sampled_from([None, None, ["gc"], ["gc", "mask"]])),
@@ -419,6 +420,22 @@ def check_layout(case, ctx: Ctx):
         got = {(a, b): (c, x) for a, b, c, x in zip(df["bin1_id"].tolist(), df["bin2_id"].tolist(), df["count"].tolist(), df["x"].tolist())}
         wantagg = {k: (sum(c for c, _ in vs), sum(x for _, x in vs)) for k, vs in want.items()}
         check(got == wantagg, lambda: f"{route} with layout {lay}: pixels (count, x) {got} want {wantagg}")
+        if route != "pairs":
+            # a later load in the same process that relies on the format's DEFAULT columns is not affected by the
+            # field numbers given to the earlier call
+            plain = os.path.join(d, "plain.txt")
+            nb = gen.n_bins(bt)
+            with open(plain, "w") as f:
+                if route == "coo":
+                    f.write(f"0\t{nb - 1}\t7\n")
+                else:
+                    f.write(f"{br[0][0]}\t{br[0][1]}\t{br[0][2]}\t{br[nb - 1][0]}\t{br[nb - 1][1]}\t{br[nb - 1][2]}\t7\n")
+            out2 = os.path.join(d, "plain.cool")
+            rc, _, exc = run_cli(["load", "-f", route, bins_arg, plain, out2])
+            check(rc == 0 and exc is None, f"a default-layout cooler load -f {route} after a --field load in the same process failed: exit {rc} {exc!r}")
+            df2 = cooler.Cooler(out2).pixels()[:]
+            got2 = list(zip(df2["bin1_id"].tolist(), df2["bin2_id"].tolist(), df2["count"].tolist()))
+            check(got2 == [(0, nb - 1, 7)], lambda: f"default-layout load -f {route} after a --field load in the same process read {got2}, the file says [(0, {nb - 1}, 7)]")
     finally:
         ctx.clean(d)
     order = [lay[k] for k in (["chrom1", "pos1", "chrom2", "pos2", "x"] if route == "pairs" else
